@@ -74,7 +74,7 @@ def main():
     spec = load_spec()
     sel = []
     for m in spec:
-        if a.only and a.only not in m[0]:
+        if a.only and not any(o in m[0] for o in a.only.split(',')):
             continue
         if pf and m[1] is not None and m[1] not in pf:
             continue
